@@ -260,6 +260,9 @@ class ParentTranslator:
                 return '.'.join(attrs)
             else:
                 return 'None'
+        elif type(value) is float and repr(value) in ("inf", "-inf", "nan"):
+            # These have no literal
+            return "float('%s')" % repr(value)
         elif any(type(value) is t for t in literal_types):
             return pprint.pformat(value)
         elif (isinstance(value, types.ModuleType)
